@@ -99,14 +99,26 @@ def smallInts : List Cbor → Option Bytes
 
 def padTo (n : Nat) (b : Bytes) : Bytes := (b ++ List.replicate n 0).take n
 
-/-- `Point.UnmarshalCBOR` (repaired): `[]` = origin, `[slot, hash]`; nothing else. -/
-def decPoint (t : Cbor) : Option Val :=
+/-- the self-described-CBOR tag (55799), which fxamacker strips in front of any item it decodes -/
+def strip55799 : Cbor → Cbor
+  | .tag w n x => if n = 55799 then strip55799 x else .tag w n x
+  | x => x
+
+def pointPair (a h : Cbor) : Option Val :=
+  match a with
+  | .int false _ slot =>
+    (match strPayload false h with
+     | some hash => some (.s [.u slot, .h hash])
+     | none => none)
+  | _ => none
+
+/-- `Point.UnmarshalCBOR` (repaired): `[]` = origin, `[slot, hash]`; nothing else.
+    The items are decoded generically (`[]any`), so with `strip` (the tag-skipping of the
+    code as it is) a self-described-CBOR tag in front of slot or hash disappears. -/
+def decPoint (strip : Bool) (t : Cbor) : Option Val :=
   match items t with
   | some [] => some (.s [.u 0, .h []])
-  | some [.int false _ slot, h] =>
-    match strPayload false h with
-    | some hash => some (.s [.u slot, .h hash])
-    | none => none
+  | some [a, h] => if strip then pointPair (strip55799 a) (strip55799 h) else pointPair a h
   | _ => none
 
 /-- `Point.UnmarshalCBOR` as found: any list (and null) that is not a pair is origin. -/
@@ -187,7 +199,7 @@ def decVal (lax : Mode) : Shape → Cbor → Option Val
   | s, .arr w xs =>
     match s with
     | .raw => some (.r (enc (.arr w xs)))
-    | .point => decPoint (.arr w xs)
+    | .point => decPoint lax.tags (.arr w xs)
     | .list e => (decList lax e xs).map .l
     | .struct fs => (decFields lax fs xs).map .s
     | .bytes => if lax.arr then (smallInts xs).map .h else none
@@ -196,7 +208,7 @@ def decVal (lax : Mode) : Shape → Cbor → Option Val
   | s, .arrI xs =>
     match s with
     | .raw => some (.r (enc (.arrI xs)))
-    | .point => decPoint (.arrI xs)
+    | .point => decPoint lax.tags (.arrI xs)
     | .list e => (decList lax e xs).map .l
     | .struct fs => (decFields lax fs xs).map .s
     | .bytes => if lax.arr then (smallInts xs).map .h else none
